@@ -1020,4 +1020,136 @@ theorem quiescent_client (s : State) (hcomp : s.comp = .idle) (hq : quiescent s 
   | refused => rw [hp] at hm; simp [CPc.inMap] at hm
 
 
+
+
+theorem idx_of_some {cs : List Client} {i : Nat} {c : Client} (h : cs[i]? = some c) : i < cs.length :=
+  (List.getElem?_eq_some_iff.mp h).1
+
+/-- `internalCandidates` misses nothing: every enabled step that is not the environment's is one of them -/
+theorem enabled_mem (s s' : State) (st : Step) (hs : step s st = some s') (he : external s st = false) :
+    st ∈ internalCandidates s := by
+  cases st <;> simp only [external] at he <;> try (simp at he; done)
+  case request => exact mem_cand_global s _ (by simp)
+  case sendReq => exact mem_cand_global s _ (by simp)
+  case recv => exact mem_cand_global s _ (by simp)
+  case compileStart => exact mem_cand_global s _ (by simp)
+  case fileRead => exact mem_cand_global s _ (by simp)
+  case bcastLock => exact mem_cand_global s _ (by simp)
+  case bcastDone => exact mem_cand_global s _ (by simp)
+  case cancel => exact mem_cand_global s _ (by simp)
+  case closeWait => exact mem_cand_global s _ (by simp)
+  case closeReturn => exact mem_cand_global s _ (by simp)
+  case compileEnd v =>
+    simp only [step] at hs
+    split at hs <;> try (simp at hs; done)
+    rename_i w hcomp
+    split at hs <;> try (simp at hs; done)
+    rename_i hvw; subst hvw
+    unfold internalCandidates; simp [hcomp]
+  case setRes v =>
+    simp only [step] at hs
+    split at hs <;> try (simp at hs; done)
+    rename_i w hcomp
+    split at hs <;> try (simp at hs; done)
+    rename_i hvw; subst hvw
+    unfold internalCandidates; simp [hcomp]
+  case wake c =>
+    simp only [step] at hs
+    split at hs <;> try (simp at hs; done)
+    split at hs <;> try (simp at hs; done)
+    split at hs <;> try (simp at hs; done)
+    rename_i cl hc
+    exact mem_cand_client s c (idx_of_some hc) _ (by simp)
+  case wakeCoalesced c =>
+    simp only [step] at hs
+    split at hs <;> try (simp at hs; done)
+    split at hs <;> try (simp at hs; done)
+    split at hs <;> try (simp at hs; done)
+    rename_i cl hc
+    exact mem_cand_client s c (idx_of_some hc) _ (by simp)
+  case acceptFail c =>
+    simp only [step] at hs
+    split at hs <;> try (simp at hs; done)
+    rename_i cl hc
+    exact mem_cand_client s c (idx_of_some hc) _ (by simp)
+  case register c =>
+    simp only [step, cstep] at hs
+    split at hs <;> try (simp at hs; done)
+    split at hs <;> try (simp at hs; done)
+    rename_i cl hc
+    exact mem_cand_client s c (idx_of_some hc) _ (by simp)
+  case readRes c =>
+    simp only [step, cstep] at hs
+    split at hs <;> try (simp at hs; done)
+    rename_i cl hc
+    exact mem_cand_client s c (idx_of_some hc) _ (by simp)
+  case readLog c r =>
+    simp only [step, cstep] at hs
+    split at hs <;> try (simp at hs; done)
+    rename_i cl hc
+    split at hs <;> try (simp at hs; done)
+    rename_i hg
+    exact mem_cand_readLog s c cl r hc (by simpa using hg)
+  case write c v ok =>
+    simp only [step] at hs
+    split at hs <;> try (simp at hs; done)
+    rename_i cl hc
+    split at hs <;> try (simp at hs; done)
+    rename_i hpc
+    have hi := idx_of_some hc
+    unfold internalCandidates
+    simp only [List.mem_append, List.mem_flatMap, List.mem_range]
+    refine Or.inr ⟨c, hi, Or.inr ?_⟩
+    cases ok <;> simp [hc, hpc]
+  case recvWake c =>
+    simp only [step, cstep] at hs
+    split at hs <;> try (simp at hs; done)
+    rename_i cl hc
+    exact mem_cand_client s c (idx_of_some hc) _ (by simp)
+  case woken c =>
+    simp only [step, cstep] at hs
+    split at hs <;> try (simp at hs; done)
+    rename_i cl hc
+    exact mem_cand_client s c (idx_of_some hc) _ (by simp)
+  case ctxDone c =>
+    simp only [step, cstep] at hs
+    split at hs <;> try (simp at hs; done)
+    rename_i cl hc
+    exact mem_cand_client s c (idx_of_some hc) _ (by simp)
+  case unregister c =>
+    simp only [step, cstep] at hs
+    split at hs <;> try (simp at hs; done)
+    split at hs <;> try (simp at hs; done)
+    rename_i cl hc
+    exact mem_cand_client s c (idx_of_some hc) _ (by simp)
+  case exit c =>
+    simp only [step, cstep] at hs
+    split at hs <;> try (simp at hs; done)
+    rename_i cl hc
+    exact mem_cand_client s c (idx_of_some hc) _ (by simp)
+  case done c =>
+    simp only [step] at hs
+    split at hs <;> try (simp at hs; done)
+    rename_i cl hc
+    exact mem_cand_client s c (idx_of_some hc) _ (by simp)
+
+/-- so `quiescent` means exactly: no step of the program itself is enabled -/
+theorem quiescent_iff (s : State) :
+    quiescent s = true ↔ ∀ st, external s st = false → step s st = none := by
+  constructor
+  · intro hq st he
+    cases hs : step s st with
+    | none => rfl
+    | some s' =>
+      have := quiescent_spec s hq st (enabled_mem s s' st hs he) he
+      rw [hs] at this; simp at this
+  · intro h
+    unfold quiescent
+    apply List.all_eq_true.mpr
+    intro st _
+    cases he : external s st with
+    | true => simp
+    | false => simp [h st he]
+
+
 end D2V.Watch
